@@ -523,6 +523,7 @@ static iwrc _rollforward_exl(struct iwal *wal, IWFS_EXT *extf, int recover_mode)
         rc = extf->probe_mmap_unsafe(extf, 0, &mm, &sp);
         RCGO(rc, finish);
         memset(mm + wb.off, wb.val, (size_t) wb.len);
+        IWVERIF_FX(IWVERIF_FX_WALREC, WOP_SET, wb.off, wb.len);
         break;
       }
       case WOP_COPY: {
@@ -535,6 +536,7 @@ static iwrc _rollforward_exl(struct iwal *wal, IWFS_EXT *extf, int recover_mode)
         rc = extf->probe_mmap_unsafe(extf, 0, &mm, &sp);
         RCGO(rc, finish);
         memmove(mm + wb.noff, mm + wb.off, (size_t) wb.len);
+        IWVERIF_FX(IWVERIF_FX_WALREC, WOP_COPY, wb.noff, wb.len);
         break;
       }
       case WOP_WRITE: {
@@ -556,6 +558,7 @@ static iwrc _rollforward_exl(struct iwal *wal, IWFS_EXT *extf, int recover_mode)
         rc = extf->probe_mmap_unsafe(extf, 0, &mm, &sp);
         RCGO(rc, finish);
         memmove(mm + wb.off, rp, wb.len);
+        IWVERIF_FX(IWVERIF_FX_WALREC, WOP_WRITE, wb.off, wb.len);
         rp += wb.len;
         break;
       }
@@ -568,6 +571,7 @@ static iwrc _rollforward_exl(struct iwal *wal, IWFS_EXT *extf, int recover_mode)
         rp += sizeof(wb);
         rc = extf->truncate_unsafe(extf, wb.nsize);
         RCGO(rc, finish);
+        IWVERIF_FX(IWVERIF_FX_WALREC, WOP_RESIZE, wb.nsize, 0);
         break;
       }
       case WOP_SAVEPOINT:
